@@ -321,7 +321,7 @@ func ruleC07R2(r *Run) {
 					}
 				}
 			}
-			if sel, ok := ins.(*ssa.Select); ok && sel.Blocking {
+			if sel, ok := ins.(*ssa.Select); ok && sel.Blocking && !timerBounded(sel) {
 				for _, st := range sel.States {
 					if st.Dir != types.SendOnly {
 						continue
@@ -363,7 +363,7 @@ func ruleC07R2(r *Run) {
 						}
 					}
 					r.Check(name+" send-on-found", okGuard, p.pos(sel.Pos()), name, "dispatch send must use the channel found by a comma-ok lookup, on the found edge only")
-					r.Check(name+" non-blocking delivery", !sel.Blocking, p.pos(sel.Pos()), name, "per-alias delivery uses a select with a default case")
+					r.Check(name+" non-blocking delivery", !sel.Blocking || timerBounded(sel), p.pos(sel.Pos()), name, "per-alias delivery uses a select with a default case (or one bounded by a one-shot timer)")
 				}
 			})
 		}
@@ -865,4 +865,30 @@ func ruleC07R7(r *Run) {
 	if n == 0 {
 		r.Undecided("Downstream construction", "no Downstream literal with idAlias in package iscp")
 	}
+}
+
+// timerBounded: the select has a receive case on a one-shot timer (time.After, or the C of a *time.Timer): it waits for
+// a bounded time only.
+func timerBounded(sel *ssa.Select) bool {
+	for _, st := range sel.States {
+		if st.Dir != types.RecvOnly {
+			continue
+		}
+		v := st.Chan
+		if c, ok := v.(*ssa.Call); ok {
+			if o := calleeObj(&c.Call); o != nil && o.Pkg() != nil && o.Pkg().Path() == "time" && o.Name() == "After" {
+				return true
+			}
+		}
+		if u, ok := v.(*ssa.UnOp); ok && u.Op == token.MUL {
+			if fa, isFA := u.X.(*ssa.FieldAddr); isFA {
+				if pt, isP := fa.X.Type().Underlying().(*types.Pointer); isP {
+					if n, isN := pt.Elem().(*types.Named); isN && n.Obj().Pkg() != nil && n.Obj().Pkg().Path() == "time" && n.Obj().Name() == "Timer" {
+						return true
+					}
+				}
+			}
+		}
+	}
+	return false
 }
